@@ -362,11 +362,23 @@ def backgroundAttr (ch : Channel) (c2 : Nat) : Channel :=
 structure St where
   last0 : Nat
   last1 : Nat
+  /-- `cc->curr_chan` (shared by both fields), resp. `cc->curr_chan[0]` on a tree with one current channel per field -/
   currChan : Nat
   xds : Bool
   chans : List Channel
   err : Option String
+  /-- `cc->curr_chan[1]` on a tree with one current channel per field (`currChanPerField`, generated); unused otherwise -/
+  currChan2 : Nat := 0
 deriving Repr, Inhabited
+
+/-- `cc->curr_chan` as field `field2` reads it: with the repair of finding F44 (`int curr_chan[2]`, generated fact
+    `currChanPerField`) `cc->curr_chan[field2]`, otherwise the one selector both fields share -/
+def St.curr (s : St) (field2 : Bool) : Nat :=
+  if currChanPerField && field2 then s.currChan2 else s.currChan
+
+/-- `cc->curr_chan[(new_chan >> 1) & 1] = new_chan` resp. `cc->curr_chan = new_chan` -/
+def St.setCurr (s : St) (new : Nat) : St :=
+  if currChanPerField && ((new >>> 1) &&& 1 == 1) then { s with currChan2 := new } else { s with currChan := new }
 
 def St.fail (s : St) (site : String) : St :=
   match s.err with
@@ -381,7 +393,7 @@ def St.modCh (s : St) (i : Nat) (f : Channel → Channel) : St :=
 
 /-- `ch = switch_channel(cc, ch, new)`: word break on the channel we leave -/
 def St.switchChannel (s : St) (chan new : Nat) : St :=
-  { s.modCh chan (fun ch => wordBreak ch true) with currChan := new }
+  (s.modCh chan (fun ch => wordBreak ch true)).setCurr new
 
 /-- RUx, the erase: both memories; with the repair of finding F45a (`ruEraseRaisesEvent`, generated) followed by
     `clear(ch->pg + (ch->hidden ^ 1))`, which raises the caption event -/
@@ -407,7 +419,7 @@ def endOfCaption (ch : Channel) : Channel :=
 
 /-- `caption_command(vbi, cc, c1, c2, field2)`; `c1` in 0x10..0x1F, `c2` in 0..0x7F -/
 def captionCommand (s : St) (c1 c2 : Nat) (field2 : Bool) : St :=
-  let chan := (s.currChan &&& 4) + (if field2 then 2 else 0) + ((c1 >>> 3) &&& 1)
+  let chan := (s.curr field2 &&& 4) + (if field2 then 2 else 0) + ((c1 >>> 3) &&& 1)
   let c1 := c1 &&& 7
   if c2 ≥ 0x40 then s.modCh chan (fun ch => pac ch chan c1 c2)
   else match c1 with
@@ -482,7 +494,7 @@ def decodeMain (s : St) (field2 : Bool) (b0 b1 : Nat) : St :=
         if !field2 then { s with last0 := b0, last1 := b1 } else s
     else if !field2 then { s with last0 := 0 } else s
   else
-    let i := (s.currChan &&& 5) + (if field2 then 2 else 0)
+    let i := (s.curr field2 &&& 5) + (if field2 then 2 else 0)
     if b0 = 0x80 ∧ b1 = 0x80 then s.modCh i nulPair
     else
       let s := if !field2 then { s with last0 := 0 } else s
